@@ -165,6 +165,16 @@ Definition get_tls (c : client) : tlscfg :=
   match c_tls c with Some t => t | None => mkTls [] [] [] false getcfg_next_protos end.
 Definition mutate (f : tlscfg -> tlscfg) (c : client) : client := with_tls (Some (f (get_tls c))) c.
 
+(* what is done to a clone that is used once and thrown away (OFork) *)
+Inductive forkact :=
+| FkNone
+| FkSetTLS (o : option tlscfg)
+| FkSkip (b : bool)
+| FkAddRoot (r : N)
+| FkSName (s : bytes)
+| FkForce (f : force)
+| FkH2C (b : bool).
+
 Inductive op :=
 | OSetTLS (o : option tlscfg)   (* SetTLSClientConfig(conf) *)
 | OSkip (b : bool)              (* Enable/DisableInsecureSkipVerify = GetTLSClientConfig().InsecureSkipVerify = b *)
@@ -177,7 +187,9 @@ Inductive op :=
 | OClone                        (* Clone(): go on with the clone *)
 | OCloseIdle                    (* Transport.CloseIdleConnections *)
 | OBg                           (* the pending handlePendingAltSvc goroutine (if any) runs now *)
-| OReq.                         (* one GET to the origin *)
+| OReq                          (* one GET to the origin *)
+| OFork (a : forkact).          (* c2 := Clone(); a applied to c2; one GET with c2 (+ its Alt-Svc goroutine); c2 is
+                                   dropped and the sequence goes on with the ORIGINAL client *)
 
 (* ---------- the round trip ---------- *)
 Definition res := (outcome * list dial * client)%type.
@@ -319,7 +331,24 @@ Inductive altobs := AOff | AObsNone | AObsPending | AObsReady | AObsJar.
 Definition alt_obs (c : client) : altobs :=
   if negb (c_h3 c) then AOff else
   match c_alt c with ANone => AObsNone | APending false => AObsPending | APending true => AObsReady | AJar => AObsJar end.
-Inductive obs := ObsReq (o : outcome) (ds : list dial) | ObsBg (ds : list dial) (a : altobs) | ObsCfg.
+Inductive obs :=
+| ObsReq (o : outcome) (ds : list dial)
+| ObsBg (ds : list dial) (a : altobs)
+| ObsCfg
+| ObsFork (o : outcome) (ds : list dial) (bg : list dial) (a : altobs).   (* what the throw-away clone did *)
+
+Definition fork_apply (a : forkact) (c : client) : client :=
+  match a with
+  | FkNone => c
+  | FkSetTLS t => with_tls t c
+  | FkSkip b => mutate (set_skip b) c
+  | FkAddRoot r => mutate (add_root r) c
+  | FkSName s => mutate (set_sname s) c
+  | FkForce FH3 => with_force FH3 (with_h3 true c)
+  | FkForce f => with_force f c
+  | FkH2C true => with_h2c true true c
+  | FkH2C false => with_h2c false false c
+  end.
 
 Definition step_gen (guard : bool) (e : env) (c : client) (o : op) : obs * client :=
   match o with
@@ -337,6 +366,12 @@ Definition step_gen (guard : bool) (e : env) (c : client) (o : op) : obs * clien
   | OCloseIdle => (ObsCfg, with_idle false false (with_t2 false (if closeidle_closes_h3 then with_t3 T3None c else c)))
   | OBg => let '(ds, c') := do_bg e c in (ObsBg ds (alt_obs c'), c')
   | OReq => let '(o, ds, c') := do_req_gen guard e c in (ObsReq o ds, c')
+  | OFork a =>
+      (* the clone has its own configuration copy, connection pools and Alt-Svc bookkeeping: whatever is done to
+         it and with it leaves the original exactly as it was *)
+      let '(o, ds, c2) := do_req_gen guard e (fork_apply a (do_clone c)) in
+      let '(ds2, c3) := do_bg e c2 in
+      (ObsFork o ds ds2 (alt_obs c3), c)
   end.
 Definition step := step_gen altsvc_only_unforced.
 
